@@ -96,7 +96,7 @@ class CallGraph:
 
     def type_of(self, f, expr, depth=0):
         """Set of Cls the expression may evaluate to an *instance* of (empty = unknown)."""
-        if depth > 4:
+        if depth > 9:
             return set()
         cls = self.owner_class(f)
         selfname = self.self_name(f)
@@ -122,7 +122,7 @@ class CallGraph:
                     for v in self._last_ctor_classes:
                         if t.cls in v.mro:
                             out.add(v)
-                elif depth < 3:
+                elif depth < 6:
                     out |= self.return_types(t, depth + 1)
             return out
         if isinstance(expr, ast.Attribute):
@@ -135,7 +135,7 @@ class CallGraph:
 
     def return_types(self, fn, depth=0):
         out = set()
-        if depth > 4:
+        if depth > 9:
             return out
         for n in walk_own(fn.node):
             if isinstance(n, ast.Return) and n.value is not None:
@@ -444,7 +444,7 @@ class CallGraph:
                     and self.prog.resolve_global(f.mod, root.id) is None:
                 return [], 'external'
             # typed receiver
-            ts = self.type_of(f, base, depth + 1) if depth < 4 else set()
+            ts = self.type_of(f, base, depth + 1) if depth < 8 else set()
             if ts:
                 targets = []
                 for c in ts:
